@@ -11,6 +11,8 @@ const SHAPES: [(Shape, &str); 4] = [(Shape::Named, "named"), (Shape::Tuple, "tup
 
 fn fields_src(shape: &str) -> &'static str {
     match shape {
+        "tuple0" => "()",
+        "named0" => "{}",
         "named" => "{ a: u8, b: String }",
         "tuple" => "(u8, u16)",
         "newtype" => "(u8)",
@@ -27,6 +29,11 @@ fn bodies(max_variants: usize) -> Vec<(String, Sx)> {
         v.push((format!("struct B {}{}", fields_src(s), semi), tagged("struct", vec![atom(*s)])));
     }
     v.push(("union B { a: u8, b: u16 }".to_string(), atom("union")));
+    // zero-field tuple and named bodies: still "tuple" / "named"
+    v.push(("struct B();".to_string(), tagged("struct", vec![atom("tuple")])));
+    v.push(("struct B {}".to_string(), tagged("struct", vec![atom("named")])));
+    v.push(("enum B { V0(), V1 {} }".to_string(), tagged("enum", vec![atom("tuple"), atom("named")])));
+    v.push(("enum B { V0, V1(), V2(u8) }".to_string(), tagged("enum", vec![atom("unit"), atom("tuple"), atom("newtype")])));
     let mut combos: Vec<Vec<&str>> = vec![vec![]];
     let mut frontier: Vec<Vec<&str>> = vec![vec![]];
     for _ in 0..max_variants {
@@ -93,7 +100,7 @@ pub fn run_recv(seed: u64, n: usize, out: &mut Out, max_variants: usize) {
         let mut r = base.fork(k as u64);
         for (j, (src, shape)) in bodies.iter().enumerate() {
             // quick tier: every receiver × (all structs, union, all enums up to 2 variants, a sample beyond)
-            if n < total && j > 4 + 1 + 4 + 16 && !r.chance(n, total) {
+            if n < total && j > 4 + 1 + 4 + 4 + 16 && !r.chance(n, total) {
                 continue;
             }
             let di: syn::DeriveInput = syn::parse_str(src).unwrap();
@@ -109,7 +116,7 @@ pub fn run_recv(seed: u64, n: usize, out: &mut Out, max_variants: usize) {
     for (name, f) in fv.iter() {
         let decl = &decls[*name];
         let supports = recv::find_option(&decl.attrs, "supports").expect("supports option");
-        for (_, s) in SHAPES.iter() {
+        for (_, s) in SHAPES.iter().chain([(Shape::Tuple, "tuple0"), (Shape::Named, "named0")].iter()) {
             let src = format!("enum E {{ V {} }}", fields_src(s));
             let di: syn::DeriveInput = syn::parse_str(&src).unwrap();
             let variant = match &di.data {
@@ -117,7 +124,7 @@ pub fn run_recv(seed: u64, n: usize, out: &mut Out, max_variants: usize) {
                 _ => unreachable!(),
             };
             let ans = f(&variant);
-            let case = tagged("c18recv", vec![atom("fv"), ser::meta(&supports), tagged("struct", vec![atom(*s)])]);
+            let case = tagged("c18recv", vec![atom("fv"), ser::meta(&supports), tagged("struct", vec![atom(s.trim_end_matches('0'))])]);
             out.stat(if ans.starts_with("(ok") { "accepted" } else { "rejected" }, 1);
             out.case("c18", id, &case, &ans);
             id += 1;
